@@ -28,6 +28,7 @@ package trafficlogger
 
 import (
 	"bytes"
+	"context"
 	"crypto/ecdsa"
 	"crypto/elliptic"
 	crand "crypto/rand"
@@ -39,9 +40,15 @@ import (
 	"io"
 	"math/big"
 	"net"
+	"net/http"
+	"net/url"
+	"strconv"
 	"strings"
 	"sync"
 	"time"
+
+	quic "github.com/apernet/quic-go"
+	"github.com/apernet/quic-go/http3"
 
 	"github.com/apernet/hysteria/core/v2/client"
 	"github.com/apernet/hysteria/core/v2/server"
@@ -54,15 +61,124 @@ type c15Step struct {
 	N    int    `json:"n"`
 	Flow int    `json:"flow"` // tcp / udp: the flow to use; opened at its first step
 	Dir  string `json:"dir"`  // tcp / udp: up (client -> remote) | down (remote -> client)
+	// rawauth: a raw HTTP/3 connection in slot Slot that sends len(Reqs) auth requests for user ID
+	// ("ok" accepted after the rendezvous, "bad" rejected credentials), all at once (Conc) or one by one
+	Reqs  []string  `json:"reqs"`
+	Conc  bool      `json:"conc"`
+	Proto *c15Proto `json:"proto"`
 }
 
-type c15Auth struct{}
+// the wire constants of the auth request (core/internal/protocol, not importable from here): read from
+// the tree's source by the python driver and passed in the step
+type c15Proto struct {
+	Host   string `json:"host"`
+	Path   string `json:"path"`
+	HAuth  string `json:"hauth"`
+	HCCRX  string `json:"hccrx"`
+	HPad   string `json:"hpad"`
+	Status int    `json:"status"`
+}
 
-func (c15Auth) Authenticate(addr net.Addr, auth string, tx uint64) (bool, string) {
+// "ok:<id>" accepts at once.  "rv:<k>:<token>:<id>" accepts after a short rendezvous: the call waits
+// until k calls with the same token are inside Authenticate, or c15Rendezvous has passed - a slow
+// authenticator backend (HTTP / command), so that auth requests in flight on ONE connection overlap
+// if the server lets them.
+type c15Auth struct {
+	mu sync.Mutex
+	rv map[string]*c15Rv
+}
+
+type c15Rv struct {
+	n    int
+	full chan struct{}
+}
+
+const c15Rendezvous = 150 * time.Millisecond
+
+func (a *c15Auth) Authenticate(addr net.Addr, auth string, tx uint64) (bool, string) {
 	if strings.HasPrefix(auth, "ok:") {
 		return true, auth[3:]
 	}
+	if strings.HasPrefix(auth, "rv:") {
+		parts := strings.SplitN(auth, ":", 4)
+		if len(parts) != 4 {
+			return false, ""
+		}
+		k, _ := strconv.Atoi(parts[1])
+		a.mu.Lock()
+		if a.rv == nil {
+			a.rv = map[string]*c15Rv{}
+		}
+		r := a.rv[parts[2]]
+		if r == nil {
+			r = &c15Rv{full: make(chan struct{})}
+			a.rv[parts[2]] = r
+		}
+		r.n++
+		if r.n == k {
+			close(r.full)
+		}
+		a.mu.Unlock()
+		select {
+		case <-r.full:
+		case <-time.After(c15Rendezvous):
+		}
+		return true, parts[3]
+	}
 	return false, ""
+}
+
+// a raw HTTP/3 client: one QUIC connection, any number of auth requests on it
+type c15Raw struct {
+	pkt  net.PacketConn
+	tr   *quic.Transport
+	conn *quic.Conn
+	cc   *http3.ClientConn
+}
+
+func c15RawDial(srv net.Addr) (*c15Raw, error) {
+	pkt, err := net.ListenUDP("udp", &net.UDPAddr{IP: net.IPv4(127, 0, 0, 1)})
+	if err != nil {
+		return nil, err
+	}
+	tr := &quic.Transport{Conn: pkt}
+	ctx, cancel := context.WithTimeout(context.Background(), 10*time.Second)
+	defer cancel()
+	conn, err := tr.Dial(ctx, srv, &tls.Config{InsecureSkipVerify: true, NextProtos: []string{http3.NextProtoH3}},
+		&quic.Config{EnableDatagrams: true})
+	if err != nil {
+		_ = tr.Close()
+		_ = pkt.Close()
+		return nil, err
+	}
+	h3 := &http3.Transport{}
+	return &c15Raw{pkt: pkt, tr: tr, conn: conn, cc: h3.NewClientConn(conn)}, nil
+}
+
+// one POST <host><path> auth request; returns the status code (0 = transport error)
+func (r *c15Raw) auth(p *c15Proto, auth string) int {
+	req := &http.Request{
+		Method: http.MethodPost,
+		URL:    &url.URL{Scheme: "https", Host: p.Host, Path: p.Path},
+		Header: make(http.Header),
+	}
+	req.Header.Set(p.HAuth, auth)
+	req.Header.Set(p.HCCRX, "0")
+	req.Header.Set(p.HPad, "verif-padding-verif-padding-verif-padding")
+	ctx, cancel := context.WithTimeout(context.Background(), 10*time.Second)
+	defer cancel()
+	resp, err := r.cc.RoundTrip(req.WithContext(ctx))
+	if err != nil {
+		return 0
+	}
+	_ = resp.Body.Close()
+	return resp.StatusCode
+}
+
+func (r *c15Raw) close() {
+	_ = r.conn.CloseWithError(0, "")
+	_ = r.tr.Close()
+	_ = r.pkt.Close()
 }
 
 func c15Cert() (tls.Certificate, error) {
@@ -188,6 +304,7 @@ type c15E2EObs struct {
 	Downs   []int      `json:"downs"`   // LogOnlineState(id, false) calls seen during the step
 	Alive   *bool      `json:"alive"`   // tcp / udp steps: did a proxy attempt on the connection succeed afterwards?
 	Online  [][]int64  `json:"online"`  // listing after the step reached (or failed to reach) the expected census
+	Auths   []int      `json:"auths"`   // rawauth: status of every auth request, in the order of Reqs
 }
 
 const (
@@ -222,7 +339,7 @@ func c15E2E(c c15Case, steps []c15Step, res map[string]any) {
 	srv, err := server.NewServer(&server.Config{
 		TLSConfig:     server.TLSConfig{Certificates: []tls.Certificate{cert}},
 		Conn:          udpConn,
-		Authenticator: c15Auth{},
+		Authenticator: &c15Auth{},
 		TrafficLogger: tap,
 	})
 	if err != nil {
@@ -294,6 +411,7 @@ func c15E2E(c c15Case, steps []c15Step, res map[string]any) {
 		return r
 	}
 	slots := map[int]client.Client{}
+	raws := map[int]*c15Raw{}
 	slotID := map[int]int{}
 	flows := map[int]*c15Flow{}
 	live := make([]int64, n)
@@ -306,6 +424,9 @@ func c15E2E(c c15Case, steps []c15Step, res map[string]any) {
 		}
 		for _, cl := range slots {
 			_ = cl.Close()
+		}
+		for _, rc := range raws {
+			rc.close()
 		}
 	}()
 	dropSlot := func(slot int) {
@@ -322,7 +443,7 @@ func c15E2E(c c15Case, steps []c15Step, res map[string]any) {
 	census := func() ([][]int64, bool) {
 		bound := 15 * time.Second
 		if !ok {
-			bound = time.Second // the verdict is already "violated": do not spend the full bound again
+			bound = 250 * time.Millisecond // the verdict is already "violated": do not spend the full bound again
 		}
 		deadline := time.Now().Add(bound)
 		for {
@@ -412,6 +533,7 @@ func c15E2E(c c15Case, steps []c15Step, res map[string]any) {
 		result := "ok"
 		mark := tap.mark()
 		var alive *bool
+		var auths []int
 		wantDowns, wantUps := []int{}, []int{}
 		switch st.A {
 		case "connect", "reject":
@@ -438,8 +560,94 @@ func c15E2E(c c15Case, steps []c15Step, res map[string]any) {
 				live[st.ID]++
 				wantUps = append(wantUps, st.ID)
 			}
+		case "rawauth":
+			// several auth requests on ONE QUIC connection: however they overlap, the connection is one
+			// connection of its user - one online notification, listed once, gone from the listing after close
+			if st.Proto == nil || len(st.Reqs) == 0 {
+				result = "skipped"
+				break
+			}
+			rc, err := c15RawDial(udpConn.LocalAddr())
+			if err != nil {
+				fail("step %d: raw QUIC connection failed: %v", si, err)
+				result = "error:connect"
+				break
+			}
+			nok := 0
+			for _, k := range st.Reqs {
+				if k == "ok" {
+					nok++
+				}
+			}
+			token := fmt.Sprintf("%d-%d", si, st.Slot)
+			cred := func(k string) string {
+				if k == "ok" {
+					n := 1
+					if st.Conc {
+						n = nok
+					}
+					return fmt.Sprintf("rv:%d:%s:%s", n, token, c.Ids[st.ID])
+				}
+				return "denied"
+			}
+			auths = make([]int, len(st.Reqs))
+			if st.Conc {
+				var wg sync.WaitGroup
+				for j, k := range st.Reqs {
+					wg.Add(1)
+					go func(j int, k string) {
+						defer wg.Done()
+						auths[j] = rc.auth(st.Proto, cred(k))
+					}(j, k)
+				}
+				wg.Wait()
+			} else {
+				for j, k := range st.Reqs {
+					auths[j] = rc.auth(st.Proto, cred(k))
+				}
+			}
+			anyOK, stepBad := false, false
+			for j, k := range st.Reqs {
+				switch {
+				case k == "ok" && auths[j] != st.Proto.Status:
+					fail("step %d: auth request %d of %d on one connection (accepted credentials) answered %d", si, j, len(st.Reqs), auths[j])
+					stepBad = true
+				case k == "ok":
+					anyOK = true
+				case auths[j] == st.Proto.Status && !st.Conc && !anyOK:
+					fail("step %d: rejected credentials were accepted on a connection that was not authenticated", si)
+					stepBad = true
+				}
+			}
+			nup := 0
+			for _, e := range tap.since(mark) {
+				if !e.Log && e.On {
+					nup++
+				}
+			}
+			if nup > 1 {
+				fail("step %d: %d auth requests on ONE connection of id %d (concurrent=%v) produced %d online notifications", si, len(st.Reqs), st.ID, st.Conc, nup)
+			}
+			if nok > 0 && !stepBad {
+				raws[st.Slot] = rc
+				slotID[st.Slot] = st.ID
+				live[st.ID]++
+				wantUps = append(wantUps, st.ID)
+			} else {
+				rc.close()
+				if nok > 0 {
+					result = "error:auth"
+				} else {
+					result = "rejected"
+				}
+			}
 		case "close":
-			if cl, has := slots[st.Slot]; has {
+			if rc, has := raws[st.Slot]; has {
+				rc.close()
+				delete(raws, st.Slot)
+				live[slotID[st.Slot]]--
+				wantDowns = append(wantDowns, slotID[st.Slot])
+			} else if cl, has := slots[st.Slot]; has {
 				_ = cl.Close()
 				dropSlot(st.Slot)
 				live[slotID[st.Slot]]--
@@ -638,7 +846,7 @@ func c15E2E(c c15Case, steps []c15Step, res map[string]any) {
 		if !good {
 			fail("step %d (%s): GET /online shows %v, expected census %v (bounded wait expired)", si, st.A, on, live)
 		}
-		ob := c15E2EObs{Step: si, Result: result, Alive: alive, Online: on, Reports: [][]uint64{}, Ups: []int{}, Downs: []int{}}
+		ob := c15E2EObs{Step: si, Result: result, Alive: alive, Online: on, Reports: [][]uint64{}, Ups: []int{}, Downs: []int{}, Auths: auths}
 		for _, e := range tap.since(mark) {
 			switch {
 			case e.Log:
